@@ -14,7 +14,13 @@ RULE = ("configuration include trees of up to 5 resources (random shapes, nested
         "packages, %import incl. repeated imports) with malformed / missing members. Real events (URL stream open/close via a "
         "wrapped urllib.request.urlopen, Resource open/close via a tracking Resource class) are compared with the model's "
         "trace and checked well-bracketed with everything closed; one ConfigLoader object serves all loads of a tree and after "
-        "every load the corrected files are loaded again by it and by a fresh loader (equal results required). non-trivial = at least 2 resources; distinct by (tree, fault)")
+        "every load the corrected files are loaded again by it and by a fresh loader (equal results required). Resource GRAPHS (second "
+        "model): random tables of configuration documents (includes incl. cycles, %import), component packages (importing each "
+        "other, <import src> of leaf schemas) and schema documents (trees of bases, imports), entered by URL or open file, each "
+        "run with single faults and then again, corrected, on the SAME loader object: outcome, events and the loader's state "
+        "(_active_urls, component marks, schema cache) compared with the model after both loads; directed: a component that "
+        "fails after it was found (schema error / XML error past its first type / nested import failing), same text three times "
+        "on one loader vs a fresh loader. non-trivial = at least 2 resources; distinct by (tree, fault)")
 
 
 class Tracker:
@@ -245,6 +251,7 @@ def run(ctx):
                     shutil.rmtree(root, ignore_errors=True)
             ctx.sample({"tree": steps, "faults": len(faults)}, cap=3)
         _schema_graphs(ctx, tr, pk, base)
+        _res2_correspondence(ctx, tr, pk, base)
     finally:
         tr.uninstall()
         pk.close()
@@ -272,6 +279,250 @@ def _wb(events):
             return False
         i += 1
     return not st
+
+
+# ------------------------------------------------------------------ second model: resource graphs and the loaders' state
+def _gen_res2(rng, pk, kind):
+    """a scenario for lean/ZCV/Model/Resources2.lean: {id: doc}; docs refer to each other by id.
+    cfg docs 0..: includes (cycles allowed - the loader refuses them), %import of component docs; component docs import other
+    components (cycles allowed - hasComponent stops them) and <import src> leaf schema docs; schema docs extend a tree of bases
+    (no diamonds, no cycles: the loader does not detect those), import leaf schemas and components."""
+    docs = {}
+    nid = [0]
+
+    def new():
+        nid[0] += 1
+        return nid[0] - 1
+    comps = []
+    leaves = []
+
+    def leaf():
+        if leaves and rng.random() < 0.5:
+            return rng.choice(leaves)
+        i = new()
+        docs[i] = ("schema", [], ["work"] * rng.randint(0, 2))
+        leaves.append(i)
+        return i
+
+    def comp(depth=0):
+        if comps and rng.random() < (0.5 if depth == 0 else 0.7):
+            return rng.choice(comps)       # an existing one: repeated imports, cycles between components
+        i = new()
+        comps.append(i)
+        body = []
+        docs[i] = ("comp", body)
+        for _ in range(rng.randint(1, 3)):
+            r = rng.random()
+            if r < 0.25 and depth < 2:
+                body.append(("importpkg", comp(depth + 1)))
+            elif r < 0.4:
+                body.append(("importsrc", leaf()))
+            else:
+                body.append("work")
+        return i
+    if kind == "cfg":
+        cfgs = [new()]
+        ncfg = rng.randint(1, 4)
+        for _ in range(ncfg - 1):
+            cfgs.append(new())
+        for n, i in enumerate(cfgs):
+            lines = []
+            for _ in range(rng.randint(1, 4)):
+                r = rng.random()
+                if r < 0.3:
+                    later = [c for c in cfgs if c > i]
+                    tgt = rng.choice(later) if (later and rng.random() < 0.85) else rng.choice(cfgs)   # sometimes a cycle / self-include
+                    lines.append(("incl", tgt))
+                elif r < 0.55:
+                    lines.append(("imp", comp()))
+                else:
+                    lines.append("work")
+            docs[i] = ("cfg", lines)
+        return docs, cfgs[0]
+    # schema graph: a tree of bases
+    def schema(depth):
+        i = new()
+        bases = []
+        if depth < 2:
+            for _ in range(rng.choice([0, 1, 1, 2])):
+                bases.append(schema(depth + 1))
+        body = []
+        for _ in range(rng.randint(0, 3)):
+            r = rng.random()
+            if r < 0.25:
+                body.append(("importpkg", comp()))
+            elif r < 0.45:
+                body.append(("importsrc", leaf()))
+            else:
+                body.append("work")
+        docs[i] = ("schema", bases, body)
+        return i
+    top = schema(0)
+    return docs, top
+
+
+def _res2_points(docs, entry_id, entry_file):
+    pts = []
+    for i, d in docs.items():
+        if d[0] != "comp" and not (i == entry_id and entry_file):
+            pts += [("urlopen", i), ("read", i), ("decode", i)]
+        if d[0] == "comp":
+            pts.append(("urlopen", i))
+        steps = d[1] if d[0] != "schema" else ["ext"] * len(d[1]) + list(d[2])
+        for k, st in enumerate(steps):
+            if st == "work":
+                pts.append(("step", i, k))
+    return pts
+
+
+def _res2_write(root, pk, docs, names, fault):
+    for i, d in docs.items():
+        broken = lambda k: fault == ("step", i, k)
+        if d[0] == "cfg":
+            lines = []
+            for k, st in enumerate(d[1]):
+                if st == "work":
+                    lines.append("<" if broken(k) else "k v%d_%d" % (i, k))
+                elif st[0] == "incl":
+                    lines.append("%%include r%d.conf" % st[1])
+                else:
+                    lines.append("%%import %s" % names[st[1]])
+            data = ("\n".join(lines) + "\n").encode("utf-8")
+            path = os.path.join(root, "r%d.conf" % i)
+        else:
+            body = []
+            nb = len(d[1]) if d[0] == "schema" else 0
+            for k, st in enumerate(d[2] if d[0] == "schema" else d[1]):
+                kk = k + nb
+                if st == "work":
+                    if d[0] == "comp":
+                        body.append("<sectiontype/>" if broken(kk) else "<sectiontype name='t%d_%d'/>" % (i, kk))
+                    else:
+                        body.append("<key/>" if broken(kk) else "<key name='k%d_%d'/>" % (i, kk))
+                elif st[0] == "importsrc":
+                    body.append("<import src='%s'/>" % ("file://" + urllib.request.pathname2url(os.path.join(root, "r%d.xml" % st[1]))))
+                else:
+                    body.append("<import package='%s'/>" % names[st[1]])
+            if d[0] == "schema":
+                ext = " extends='%s'" % " ".join("r%d.xml" % b for b in d[1]) if d[1] else ""
+                text = "<schema%s>%s</schema>" % (ext, "".join(body))
+                path = os.path.join(root, "r%d.xml" % i)
+            else:
+                text = "<component>%s</component>" % "".join(body)
+                path = os.path.join(pk.root, names[i], "component.xml")
+            data = text.encode("utf-8")
+        if fault == ("urlopen", i):
+            if os.path.exists(path):
+                os.remove(path)
+            continue
+        if fault == ("decode", i):
+            data = (b"k caf\xe9\n" if d[0] == "cfg" else b"<!-- caf\xe9 -->") + data
+        with open(path, "wb") as f:
+            f.write(data)
+
+
+def _res2_sexp(docs):
+    def st(x):
+        return Atom("work") if x == "work" else [Atom(x[0]), x[1]]
+    out = []
+    for i, d in docs.items():
+        if d[0] == "cfg":
+            out.append([i, [Atom("cfg"), [st(x) for x in d[1]]]])
+        elif d[0] == "schema":
+            out.append([i, [Atom("schema"), list(d[1]), [st(x) for x in d[2]]]])
+        else:
+            out.append([i, [Atom("comp"), [st(x) for x in d[1]]]])
+    return out
+
+
+def _res2_correspondence(ctx, tr, pk, base):
+    """the graph model (Model/Resources2.lean, theorems C19_all_closed2, C19_active_restored, C19_marks_justified, ...) against the
+    real loaders: per scenario, per fault point: a load with the fault, then the corrected files loaded again by the SAME loader
+    object; outcome, open/close events and the loader's state (_active_urls, component marks, schema cache) are compared with
+    the model's after each of the two loads"""
+    import ZConfig
+    from ZConfig.loader import ConfigLoader, SchemaLoader
+    rng = ctx.rng
+    nscen = 60 if ctx.thorough() else 10
+    for si in range(nscen):
+        kind = rng.choice(["cfg", "cfg", "schema"])
+        docs, top = _gen_res2(rng, pk, kind)
+        names = {i: pk.add_component([]) for i, d in docs.items() if d[0] == "comp"}
+        entry_file = rng.random() < 0.3
+        entry = [Atom(("cfg" if kind == "cfg" else "schema") + ("file" if entry_file else "url")), top]
+        pts = _res2_points(docs, top, entry_file)
+        faults = [None] + (pts if ctx.thorough() else rng.sample(pts, min(len(pts), 6)))
+        root = tempfile.mkdtemp(prefix="zcv-c19g-", dir=base)
+        try:
+            def url_of(i):
+                d = docs[i]
+                if d[0] == "comp":
+                    return "package:%s:component.xml" % names[i]
+                return "file://" + urllib.request.pathname2url(os.path.join(root, "r%d.%s" % (i, "conf" if d[0] == "cfg" else "xml")))
+            ids = {url_of(i): i for i in docs}
+            main = os.path.join(root, "r%d.%s" % (top, "conf" if kind == "cfg" else "xml"))
+            base_schema = ZConfig.loadSchemaFile(io.StringIO("<schema><multikey name='k'/></schema>"))
+
+            def real_run(ld, fault):
+                tr.reset()
+                _res2_write(root, pk, docs, names, fault)
+                if fault is not None and fault[0] == "read":
+                    tr.read_fail.add(url_of(fault[1]))
+                try:
+                    if entry_file:
+                        with open(main, encoding="utf-8", newline="") as f:
+                            ld.loadFile(f)
+                    else:
+                        ld.loadURL(main)
+                    ended = "ok"
+                except BaseException as e:
+                    ended = type(e).__name__
+                ev = [[k, ids.get(u, -1)] for k, u in tr.events]
+                if kind == "cfg":
+                    state = [[ids.get(u, -1) for u in ld._active_urls],
+                             [ids.get(u, -1) for u in ld.schema._components],
+                             [ids.get(u, -1) for u in (ld._loader._cache if ld._private_schema else {})]]
+                else:
+                    state = [[], [], [ids.get(u, -1) for u in ld._cache]]
+                return ended, ev, state, tr.leaks()
+            for fault in faults:
+                ld = ConfigLoader(base_schema) if kind == "cfg" else SchemaLoader()
+                r1 = real_run(ld, fault)
+                r2 = real_run(ld, None)
+                ctx.evaluations += 2
+                ctx.count("graph:%s:%s" % (kind, fault[0] if fault else "none"))
+                ctx.count("graph-ended:" + ("ok" if r1[0] == "ok" else "failed"))
+                ctx.nontriv(("graph", si, fault))
+                rep = {"docs": {str(i): d for i, d in docs.items()}, "entry": [str(entry[0]), top], "fault": fault,
+                       "first": {"ended": r1[0], "events": r1[1], "state": r1[2]}, "second": {"ended": r2[0], "events": r2[1], "state": r2[2]}}
+                for which, r in (("first", r1), ("second", r2)):
+                    if r[3]:
+                        ctx.violate("graph scenario, %s load (%s): still open %r" % (which, r[0], [(k, ids.get(u, u)) for k, u in r[3]]), rep,
+                                    signature="C19:leak:graph:%s" % (fault[0] if fault else "none"))
+                    elif not _wb(r[1]):
+                        ctx.violate("graph scenario, %s load: events not well bracketed: %r" % (which, r[1]), rep,
+                                    signature="C19:order:graph:%s" % (fault[0] if fault else "none"))
+                    elif r[2][0]:
+                        ctx.violate("graph scenario: _active_urls not empty after the %s load (%s): %r" % (which, r[0], r[2][0]), rep,
+                                    signature="C19:state-left-behind:active-urls")
+                if not ctx.driver_ok:
+                    continue
+                fpts = [[Atom(fault[0])] + list(fault[1:])] if fault else []
+                m1 = core.driver_batch([[Atom("res2run"), fpts, _res2_sexp(docs), entry, 64, [], [], []]])[0]
+                if not (isinstance(m1, list) and len(m1) == 6):
+                    ctx.disagree("resources2-request", rep, "answer", m1)
+                    continue
+                st1 = [[int(x) for x in m1[2]], [int(x) for x in m1[3]], [int(x) for x in m1[4]]]
+                m2 = core.driver_batch([[Atom("res2run"), [], _res2_sexp(docs), entry, 64] + st1])[0]
+                for which, r, m in (("first", r1, m1), ("second", r2, m2)):
+                    mev = [[str(e[0]), int(e[1])] for e in m[5]]
+                    mst = [[int(x) for x in m[2]], [int(x) for x in m[3]], [int(x) for x in m[4]]]
+                    if (m[0] == "t") != (r[0] == "ok") or mev != r[1] or mst != r[2]:
+                        ctx.disagree("resources2:" + which, rep, {"ended": r[0], "events": r[1], "state": r[2]},
+                                     {"ok": str(m[0]), "events": mev, "state": mst})
+                        break
+        finally:
+            shutil.rmtree(root, ignore_errors=True)
 
 
 def _failed_import_leaves_nothing(ctx, pk):
